@@ -304,7 +304,7 @@ where
         t.st.sample(j);
     }
     // (2) every enum variant at its maximum + random values
-    let rounds = t.cfg.scale(3, 300, 10_000);
+    let rounds = t.cfg.scale(3, 3_000, 60_000);
     for i in 0..rounds {
         let got = {
             let mut g = if i % 3 == 0 { ValGen::new(&mut t.rng) } else { ValGen::small(&mut t.rng) };
